@@ -244,6 +244,10 @@ pub fn run(ctx: &Ctx) {
             seqs.push(vec![*a, *b]);
         }
     }
+    // longer sequences (block boundaries of 8 / 16 words and beyond)
+    for n in [3usize, 7, 8, 9, 15, 16, 17, 24, 33, 100] {
+        seqs.push((0..n).map(|i| ws[i % ws.len()].wrapping_add(i as Word * 0x0101)).collect());
+    }
     for (i, s) in seqs.iter().enumerate() {
         let id = format!("codec/hex/{i}");
         if !ctx.want(&id) {
@@ -349,6 +353,36 @@ fn serde_round_trips(ctx: &Ctx) {
     for (i, b) in [vec![], vec![0u8], vec![1, 2, 3, 255, 0, 128]].into_iter().enumerate() {
         rt(ctx, &format!("codec/serde/program/{i}"), &Program(b));
     }
+    // programs up to the documented maximum size (the hex form is twice as long)
+    for len in [255usize, 256, 4999, 5000, 5001, 9999, 10_000] {
+        rt(ctx, &format!("codec/serde/program-len/{len}"), &Program((0..len).map(|i| (i * 31 + 7) as u8).collect()));
+    }
+    // every recovery id through Display / FromStr and serde
+    for rid in 0..=255u8 {
+        let sg = Signature(std::array::from_fn(|i| (i as u8).wrapping_mul(7).wrapping_add(rid)), rid);
+        let id = format!("codec/display/signature-recid/{rid}");
+        if ctx.want(&id) {
+            let s = format!("{sg}");
+            let up = format!("{sg:X}");
+            match (s.parse::<Signature>(), up.parse::<Signature>()) {
+                (Ok(a), Ok(b)) if a == sg && b == sg => ctx.pass(),
+                other => ctx.fail(&id, "Display / FromStr round-trips every signature", format!("recovery id {rid}: {s} parses to {:?}", other)),
+            }
+        }
+        if rid % 16 == 11 || rid < 5 || rid > 250 {
+            rt(ctx, &format!("codec/serde/signature-recid/{rid}"), &sg);
+        }
+    }
+    // larger nested containers
+    let big = Solution {
+        predicate_to_solve: PredicateAddress { contract: ca(9), predicate: ca(10) },
+        predicate_data: (0..40).map(|i| (0..(i % 7)).map(|j| (i * 1000 + j) as Word - 20_000).collect()).collect(),
+        state_mutations: (0..70).map(|i| Mutation { key: (0..(1 + i % 5)).map(|j| (i * j) as Word).collect(), value: (0..(i % 4)).map(|j| Word::MAX - (i + j) as Word).collect() }).collect(),
+    };
+    rt(ctx, "codec/serde/solution/big", &big);
+    rt(ctx, "codec/serde/set/big", &SolutionSet { solutions: vec![big.clone(), Solution { predicate_to_solve: PredicateAddress { contract: ca(1), predicate: ca(2) }, predicate_data: vec![], state_mutations: vec![] }, big.clone()] });
+    let bigp = Predicate { nodes: (0..300u16).map(|i| Node { edge_start: if i % 5 == 0 { u16::MAX } else { i * 3 }, program_address: ca(i as u8) }).collect(), edges: (0..900u16).map(|i| i % 300).collect() };
+    rt(ctx, "codec/serde/predicate/big", &bigp);
     let sols: Vec<Solution> = vec![
         Solution { predicate_to_solve: PredicateAddress { contract: ca(1), predicate: ca(2) }, predicate_data: vec![], state_mutations: vec![] },
         Solution { predicate_to_solve: PredicateAddress { contract: ca(5), predicate: ca(6) }, predicate_data: vec![vec![], vec![1, -2]], state_mutations: muts.iter().take(6).cloned().collect() },
